@@ -37,9 +37,9 @@ def parse_obj_data(data):
         elif toks[0] == 'f':
             faces.append([ parse_vertex(vstr) for vstr in toks[1:] ])
         elif toks[0] == 'l':
-            v1,v2 = int(toks[1])-1, int(toks[2])-1
-            e = keyify(v1,v2)
-            obj.edges.append(e)
+            line = [int(v)-1 for v in toks[1:]]
+            for v1,v2 in zip(line, line[1:]): # a line element can have more than two vertices
+                obj.edges.append(keyify(v1,v2))
 
     normals_attr = obj.vertices.create_attribute("normals", float, 3)
     uv_attr = obj.face_corners.create_attribute("uv_coords", float, 2)
